@@ -110,6 +110,7 @@ pub struct Shared {
     pub calls: Vec<Call>,
     rules: Vec<Rule>,
     default_blocking: Option<Decision>,
+    default_try: Option<Decision>,
     parked: HashMap<usize, oneshot::Sender<bool>>,
 }
 
@@ -133,6 +134,11 @@ impl Hub {
     /// decision for blocking calls not matched by a rule (default accept)
     pub fn default_blocking(&self, d: Option<Decision>) {
         self.0.lock().unwrap().default_blocking = d;
+    }
+    /// decision for try_ calls not matched by a rule (default accept; `Reject` = the client's
+    /// request queue is full: blocking calls would wait for room, try_ calls fail at once)
+    pub fn default_try(&self, d: Option<Decision>) {
+        self.0.lock().unwrap().default_try = d;
     }
     pub fn parked_ids(&self) -> Vec<usize> {
         let mut v: Vec<usize> = self.0.lock().unwrap().parked.keys().cloned().collect();
@@ -177,7 +183,7 @@ impl Hub {
         }
         let mut d = decision.unwrap_or_else(|| {
             if call.is_try {
-                Decision::Accept
+                g.default_try.unwrap_or(Decision::Accept)
             } else {
                 g.default_blocking.unwrap_or(Decision::Accept)
             }
